@@ -5,7 +5,11 @@ import lib
 NAMES = ["a", "b", "c", "r", "x1", "_y", "é", "p:e", "q:f", "p:a", "long-name.x"]
 LOCALS = ["a", "b", "c", "id", "x1", "_y", "lang"]
 PREFIXES = ["p", "q", "xml"]
-TEXT_CHARS = list("abcxyz012 \n\t.,;:!?()[]{}>'\"-=/") + ["é", "界", "\U0001D4B3", "́"]
+# ... and characters whose code point ends in the byte of a delimiter (", %, &, ', -, <, >, ?, ], ;): a comparison that narrows the
+# character to a byte reads them as that delimiter (round-7 seed C01-I: U+4E3C in text was refused as `<`)
+LOWBYTE_TWINS = ["\u0122", "\u0125", "\u0126", "\u0127", "\u012d", "\u013c", "\u013e", "\u013f", "\u015d", "\u013b", "\u4e3c", "\u5926",
+                 "\U0001003c", "\u0226"]
+TEXT_CHARS = list("abcxyz012 \n\t.,;:!?()[]{}>'\"-=/") + ["é", "界", "\U0001D4B3", "́"] + LOWBYTE_TWINS
 WS = [" ", "\n", "\t", "\r\n", "  "]
 ENTITY_NAMES = ["e1", "e2", "e3", "ent"]
 TYPES = ["CDATA", "ID", "IDREF", "IDREFS", "ENTITY", "ENTITIES", "NMTOKEN", "NMTOKENS", "NOTATION (n1|n2)", "(x|y|z)"]
